@@ -21,7 +21,7 @@ const c12Watchdog = 8 * time.Second
 type reentry struct {
 	b          *eventlogger.Broker
 	parkWriter bool
-	writerKind string // regnode (default) or setthr: a threshold setter for the outer event type
+	writerKind string // regnode (default), setthr (threshold setters for the outer event type) or pipe (RegisterPipeline+RemovePipeline on the outer event type)
 	writers    *sync.WaitGroup
 	parked     *int32
 	label      string
@@ -38,15 +38,25 @@ func (re *reentry) enter(ctx context.Context) {
 		done := make(chan struct{})
 		re.writers.Add(1)
 		frame := "eventlogger.(*Broker).RegisterNode"
-		if re.writerKind == "setthr" {
+		switch re.writerKind {
+		case "setthr":
 			frame = "eventlogger.(*Broker).SetSuccessThreshold"
+		case "pipe":
+			frame = "eventlogger.(*Broker).Re" // RegisterPipeline or RemovePipeline
 		}
 		go func() {
 			defer re.writers.Done()
 			defer close(done)
-			if re.writerKind == "setthr" {
+			switch re.writerKind {
+			case "setthr":
 				re.b.SetSuccessThreshold("to", 0)
 				re.b.SetSuccessThresholdSinks("to", 0)
+				return
+			case "pipe":
+				// a pipeline change on the very event type whose Send/Reopen/removal is in flight
+				pid := eventlogger.PipelineID("pw-" + id)
+				re.b.RegisterPipeline(eventlogger.Pipeline{PipelineID: pid, EventType: "to", NodeIDs: []eventlogger.NodeID{"im", "ik"}})
+				re.b.RemovePipeline("to", pid)
 				return
 			}
 			re.b.RegisterNode(eventlogger.NodeID(id), &plainNode{typ: eventlogger.NodeTypeFilter})
@@ -76,10 +86,20 @@ func (re *reentry) enter(ctx context.Context) {
 type parkingSender struct {
 	re    *reentry
 	sends int32
+	fail  int32 // the first fail sends report an error (after re-entering), as a Broker whose threshold is not met does
 }
 
+var errInjectedSend = fmt.Errorf("injected: event not sent")
+
 func (p *parkingSender) Send(ctx context.Context, t eventlogger.EventType, payload interface{}) (eventlogger.Status, error) {
-	atomic.AddInt32(&p.sends, 1)
+	if n := atomic.AddInt32(&p.sends, 1); n <= atomic.LoadInt32(&p.fail) {
+		if p.re.parkWriter {
+			re := *p.re
+			re.label = "gated-failing"
+			re.enter(ctx)
+		}
+		return eventlogger.Status{}, errInjectedSend
+	}
 	if p.re.parkWriter {
 		// park a writer first, then forward
 		re := *p.re
@@ -96,12 +116,16 @@ type c12Scenario struct {
 	Writer   bool
 	WKind    string // kind of the concurrent writer: "" = RegisterNode, "setthr" = threshold setters
 	Pending  int    // gated pending groups
+	FailSend int    // the gated filter's first FailSend re-entrant sends report an error
 }
 
 func (s c12Scenario) String() string {
 	w := fmt.Sprint(s.Writer)
 	if s.Writer && s.WKind != "" {
 		w = s.WKind
+	}
+	if s.FailSend > 0 {
+		return fmt.Sprintf("%s/%s/writer=%s/pending=%d/failsend=%d", s.Op, s.Callback, w, s.Pending, s.FailSend)
 	}
 	return fmt.Sprintf("%s/%s/writer=%s/pending=%d", s.Op, s.Callback, w, s.Pending)
 }
@@ -190,7 +214,7 @@ func runC12Scenario(run *rt.Run, sc c12Scenario) {
 	}
 	var clock int64 = 1_700_000_000
 	now := func() time.Time { return time.Unix(atomic.LoadInt64(&clock), 0) }
-	ps := &parkingSender{re: re}
+	ps := &parkingSender{re: re, fail: int32(sc.FailSend)}
 	gf := &gated.Filter{Broker: ps, NowFunc: now, Expiration: 10 * time.Second}
 	gatedMode := strings.HasPrefix(sc.Callback, "gated")
 	if gatedMode {
@@ -261,6 +285,12 @@ func runC12Scenario(run *rt.Run, sc c12Scenario) {
 		if okp {
 			underWatchdog(run, sc, "probe Send after "+sc.Op, "eventlogger.(*Broker).Send", func() { b.Send(ctx, "ti", &Tok{S: "probe"}) })
 		}
+		if okp && gatedMode {
+			// the filter itself must not be left locked either: another gateable event through it, then its removal
+			if underWatchdog(run, sc, "probe Send of a gateable event after "+sc.Op, "eventlogger.(*Broker).Send", func() { b.Send(ctx, "to", &gated.Payload{ID: "probe"}) }) {
+				underWatchdog(run, sc, "probe RemovePipelineAndNodes after "+sc.Op, "eventlogger.(*Broker).RemovePipelineAndNodes", func() { b.RemovePipelineAndNodes(ctx, "to", "po") })
+			}
+		}
 		// parked writers must have got through
 		wdone := make(chan struct{})
 		go func() { writers.Wait(); close(wdone) }()
@@ -311,11 +341,26 @@ func TestC12(t *testing.T) {
 			)
 		}
 	}
-	// the same re-entry scenarios with a threshold setter (instead of RegisterNode) as the waiting writer
+	// the same re-entry scenarios with a threshold setter, or a pipeline change on the same event type,
+	// (instead of RegisterNode) as the waiting writer
 	for _, sc := range append([]c12Scenario(nil), scs...) {
 		if sc.Writer && sc.Callback != "none" {
 			sc.WKind = "setthr"
 			scs = append(scs, sc)
+			sc.WKind = "pipe"
+			scs = append(scs, sc)
+		}
+	}
+	// gated flushes whose re-entrant Send reports an error (expiry during Process, Close during removal)
+	for _, w := range []bool{false, true} {
+		for p := 1; p <= 3; p++ {
+			for f := 1; f <= p; f++ {
+				scs = append(scs,
+					c12Scenario{Op: "send", Callback: "gated-expire", Writer: w, Pending: p, FailSend: f},
+					c12Scenario{Op: "rmpipenodes", Callback: "gated-close", Writer: w, Pending: p, FailSend: f},
+					c12Scenario{Op: "rmnode", Callback: "gated-close", Writer: w, Pending: p, FailSend: f},
+				)
+			}
 		}
 	}
 	reps := run.Pick(4, 60)
